@@ -9,8 +9,10 @@ import (
 )
 
 // Issues returns a channel with gitlab project issues, ascending order.
-func Issues(ctx context.Context, client *gitlab.Client, pid string, since time.Time) <-chan *gitlab.Issue {
+// If the listing fails, the error is available on the second channel once the first one is closed.
+func Issues(ctx context.Context, client *gitlab.Client, pid string, since time.Time) (<-chan *gitlab.Issue, <-chan error) {
 	out := make(chan *gitlab.Issue)
+	errs := make(chan error, 1)
 
 	go func() {
 		defer close(out)
@@ -24,6 +26,7 @@ func Issues(ctx context.Context, client *gitlab.Client, pid string, since time.T
 		for {
 			issues, resp, err := client.Issues.ListProjectIssues(pid, &opts, gitlab.WithContext(ctx))
 			if err != nil {
+				errs <- err
 				return
 			}
 
@@ -39,7 +42,7 @@ func Issues(ctx context.Context, client *gitlab.Client, pid string, since time.T
 		}
 	}()
 
-	return out
+	return out, errs
 }
 
 // Notes returns a channel with note events
